@@ -72,6 +72,17 @@ def _close(a, b, rtol, atol):
     return abs(a - b) <= atol + rtol * abs(b)
 
 
+def _outside_float_range(out, spec, span):
+    """A log-variable whose estimate in logs lies beyond +-709 (an observation loading of 1e-3 or less on the state)
+    comes back as inf or 0 in levels: floating-point range, not a wrong moment; such cases are not compared."""
+    for step in ("predict", "update", "smooth"):
+        for nm in spec["names"] + lm.meas_names(spec):
+            a_ = np.asarray(out[f"{step}_med"][nm].get_data(span), dtype=float)
+            if np.any(np.isinf(a_)) or np.any(a_ == 0):
+                return True
+    return False
+
+
 def _selection(col, case, m, db, span, kwargs, out, info, tag="selection"):
     """Requesting fewer outputs (return_=..., return_predict=False, ...) changes neither the returned values
     nor the likelihood."""
@@ -132,6 +143,8 @@ def _check(case):
     if tvu or tvw:
         kwargs["stds_from_data"] = True
     out, info = api("kalman_filter", m.kalman_filter, db, span, **kwargs)
+    if log and _outside_float_range(out, spec, span):
+        return {"labels": ["log_estimate_outside_float_range"], "nontrivial": False}
     _selection(col, case, m, db, span, kwargs, out, info)
 
     # ---- likelihood ----------------------------------------------------------
@@ -282,6 +295,8 @@ def _check_unit_root(case):
     col.check(_close(float(iL["var_scale"]), float(iD["var_scale"]), 1e-7, 1e-9), "unit_root:var_scale_level_vs_deviation", "")
     steady = dict(zip(spec["names"], xs))
     steady.update(zip(lm.meas_names(spec), ys))
+    if log and (_outside_float_range(oL, spec, span) or _outside_float_range(oD, spec, span)):
+        return {"labels": ["log_estimate_outside_float_range"], "nontrivial": False}
     for step in ("predict", "update", "smooth"):
         for nm in spec["names"]:
             for t in range(N):
